@@ -613,7 +613,24 @@ Inductive op :=
 | OReadLong (h : N)
 | OWrite (h : N) (v : bytes)
 | OWriteLong (h : N) (v : bytes)
-| OWriteCmd (h : N) (v : bytes).
+| OWriteCmd (h : N) (v : bytes)
+| OSrvMtu (m : nat).            (* GattServer.set_mtu: MTU exchange initiated by the server *)
+
+(** [GattServer.set_mtu(m)]: the server sends an Exchange MTU Request; the client's
+    [GattClient.on_exch_mtu_request] stores the value as its server AND client MTU
+    (ATTLayer.set_*_mtu ignore values below 23) and answers with its client MTU; the server then
+    stores [m] as its server MTU and the answer as its client MTU.  Nothing goes through the
+    client's GATT message queue.  Below 23 nothing is sent. *)
+Definition server_set_mtu (m : nat) (c : client) (s : server) : result :=
+  if 23 <=? m then
+    if fits16 (N.of_nat m) then
+      let c' := {| c_mtu := m; c_cmtu := m; c_q := c_q c; c_locked := c_locked c |} in
+      let answer := c_cmtu c' in
+      (Ok (VNat answer), c',
+       {| sdb := sdb s; wq := wq s; s_cmtu := if 23 <=? answer then answer else s_cmtu s;
+          s_smtu := m; crashed := crashed s |})
+    else (Raise EOther, c, crash s)       (* struct.error while building the request *)
+  else (Ok VNone, c, s).
 
 (** fuel the harness and the theorems give [read_long]: one request per MTU-1 bytes of the
     longest stored value, plus two *)
@@ -632,7 +649,17 @@ Definition run_op (o : op) (c : client) (s : server) : result :=
   | OWrite h v => client_write h v c s
   | OWriteLong h v => client_write_long h v c s
   | OWriteCmd h v => client_write_command h v c s
+  | OSrvMtu m => server_set_mtu m c s
   end.
+
+(** the MTU both ends use after an operation: the value of a (valid) exchange, in either
+    direction, replaces the previous one *)
+Definition next_mtu (o : op) (mtu : nat) : nat :=
+  match o with
+  | OSetMtu m | OSrvMtu m => if 23 <=? m then m else mtu
+  | _ => mtu
+  end.
+Definition mtu_after (ops : list op) (mtu : nat) : nat := fold_left (fun m o => next_mtu o m) ops mtu.
 
 Fixpoint run_ops (ops : list op) (c : client) (s : server) : list (outcome val) * client * server :=
   match ops with
